@@ -30,6 +30,9 @@ type Listener struct {
 	FailOn string // method name on which this listener returns an error ("" = never)
 	// Clock, when set, returns the number of store writes made so far (ordering check)
 	Clock func() int
+	// the settlement plan handed to BeforeSellingCoinsAllocated (copied)
+	Alloc  map[string]math.Int
+	Refund map[string]math.Int
 }
 
 var ErrVeto = errors.New("listener veto")
@@ -107,6 +110,13 @@ func (l *Listener) BeforeAllowedBidderUpdated(ctx context.Context, auctionId uin
 }
 
 func (l *Listener) BeforeSellingCoinsAllocated(ctx context.Context, auctionId uint64, allocationMap, refundMap map[string]math.Int) error {
+	l.Alloc, l.Refund = map[string]math.Int{}, map[string]math.Int{}
+	for k, v := range allocationMap {
+		l.Alloc[k] = v
+	}
+	for k, v := range refundMap {
+		l.Refund[k] = v
+	}
 	return l.rec(HookCall{Method: "BeforeSellingCoinsAllocated", U: []uint64{auctionId}, N: len(allocationMap)})
 }
 
